@@ -73,6 +73,16 @@ def gen_cases(tier, rng):
         for bits in (1 << (code % 64), (1 << 64) - 1, ((1 << 64) - 1) ^ (1 << (code % 64)), 0):
             for s2 in ("a" + ch + "b", ch, ch + ch, "a" + ch):
                 cases.append((mk(["pb " + hx(s2), "x %d" % bits, "x %d" % bits, "x %d" % bits, "k"]), "cover-set"))
+    # byte-level scanning of pop_except_from (`nonmember_prefix_len`): every small character right after a
+    # multi-byte character whose trailing bytes are 0x80 / 0xBF, at every offset inside an 8-byte word, with the
+    # rest of the word >= 64 (word-at-a-time tricks), short and long tails
+    for code in range(0, 64):
+        ch = chr(code)
+        bits = 1 << code
+        for lead in ("\u00bf", "\u00ff", "\u07ff", "\u0fff", "\uffff", "\U0001ffff", "\u0080", "\u0800", "\U00010000", "@", "\x7f"):
+            for pad in range(0, 8) if (code % 4 == 3 or tier == "thorough") else (0, 3, 5):
+                s2 = "d" * pad + lead + ch + "no" + "z" * 9
+                cases.append((mk(["pb " + hx(s2), "x %d" % bits, "x %d" % bits, "x %d" % bits, "k"]), "cover-bytes"))
     # ops on the empty queue
     for q in queries:
         cases.append((mk([q]), "cover-empty"))
